@@ -24,6 +24,7 @@ var fieldKinds = []struct{ name, typ string }{
 	{"defined-scalar", "MyInt"}, {"defined-map", "MyMap"}, {"error", "error"}, {"any", "any"},
 	{"named-interface", "fmt.Stringer"}, {"instantiated-generic", "G[int]"}, {"float64", "float64"},
 	{"[]string", "[]string"}, {"map[string]bool", "map[string]bool"},
+	{"same-package-interface", "Iface"},
 }
 
 var aux = map[string]string{
@@ -32,6 +33,7 @@ var aux = map[string]string{
 	"Deep":  "// Deep nests three levels.\n// +gengo:deepcopy\ntype Deep struct {\n\tMid Mid\n\tTop []int\n}\n\ntype Mid struct {\n\tLeaf Leaf\n\tL    []int\n}\n\ntype Leaf struct {\n\tM map[string]int\n\tV float64\n}\n",
 	"MyInt": "type MyInt int\n",
 	"MyMap": "type MyMap map[string]string\n",
+	"Iface": "type Iface interface {\n\tM() string\n}\n\ntype impl string\n\nfunc (i impl) M() string { return string(i) }\n",
 	"G":     "// G is generic.\n// +gengo:deepcopy\ntype G[T any] struct {\n\tV T\n\tN int\n}\n",
 }
 
@@ -115,6 +117,8 @@ func (p Prog) source(pkg string) (src, check string) {
 		switch k {
 		case "G":
 			cb.WriteString("\tverifkit.CheckDeepCopy(&checks, &fails, \"G[int]\", new(G[int]))\n")
+		case "Iface":
+			// an interface type has no DeepCopy of its own
 		case "Deep":
 			cb.WriteString("\tverifkit.CheckDeepCopy(&checks, &fails, \"Deep\", new(Deep))\n\tverifkit.CheckDeepCopy(&checks, &fails, \"Mid\", new(Mid))\n")
 		default:
